@@ -75,6 +75,17 @@ class Index:
         self.end_seq = R[-1]['seq'] + 1 if R else 0
         self.has_spawn = any(r['k'] == 'spawn' for r in R)
         self.sane = not meta.get('hang') and not meta.get('abort')
+        # payload specs the harness attached to events it created (scenario ops carry them)
+        self.payloads = {}
+        specs = []
+        for a in sc.get('actors', []):
+            for op in a:
+                if op[0] == 'disp' and len(op) > 5 and op[5] and op[5].get('payload') is not None:
+                    specs.append(op[5]['payload'])
+        self._payload_specs = specs
+        for r in R:
+            if r['k'] == 'mk' and r.get('payload') is not None:
+                self.payloads[r['ev']] = r['payload']
 
     # ------------------------------------------------------------------ helpers
     def v(self, prop: str, clause: str, mech=None, **w) -> None:
@@ -951,3 +962,249 @@ def _c10_mech(ix: Index, ev: int, fired: list):
 
 
 ORACLES['C10'] = c10
+
+
+# ======================================================================== C18
+def _pred_eval(ps, tag, default):
+    """Evaluate a predicate spec on an event tag. Returns True/False, or 'raise'."""
+    if ps is None:
+        return default
+    if ps[0] == 'mod':
+        return tag % ps[1] == ps[2]
+    if ps[0] == 'true':
+        return True
+    if ps[0] == 'false':
+        return False
+    if ps[0] == 'raise':
+        return 'raise' if tag % ps[1] == ps[2] else default
+    raise AssertionError(ps)
+
+
+def _c18_matches(spec, t, tag):
+    ty = spec['type']
+    if not (ty == t or ty == f'E{t}'):
+        return False
+    # library: include := orig_include(e) and predicate(e); then  include(e) and not exclude(e)
+    inc = _pred_eval(spec.get('include'), tag, True)
+    if inc == 'raise':
+        return False
+    if inc:
+        pr = _pred_eval(spec.get('predicate'), tag, True)
+        if pr == 'raise' or not pr:
+            return False
+    else:
+        return False
+    exc = _pred_eval(spec.get('exclude'), tag, False)
+    if exc == 'raise':
+        return False
+    return not exc
+
+
+def c18(ix: Index) -> None:
+    calls = [r for r in ix.R if r['k'] == 'exp_call']
+    rets = {r['call']: r for r in ix.R if r['k'] == 'exp_ret' and r['seq'] < ix.quiet_seq}
+    static = collections.Counter()
+    for h in ix.sc['handlers']:
+        key = '*' if h['pat'] == '*' else (f"E{h['pat']}" if isinstance(h['pat'], int) else h['pat'])
+        static[(h['bus'], key)] += 1
+    for (a, _d, pat) in ix.sc.get('fwd', []):
+        static[(a, '*' if pat == '*' else (f'E{pat}' if isinstance(pat, int) else pat))] += 1
+    for c in calls:
+        ix.C['c18_expects'] += 1
+        spec, bus = c['spec'], c['bus']
+        r = rets.get(c['seq'])
+        D = c['vt'] + spec['timeout'] if spec.get('timeout') is not None else None
+        end_vt = r['vt'] if r is not None else float('inf')
+        end_seq = r['seq'] if r is not None else ix.quiet_seq
+        # candidates: processed on that bus, processing begun after the call (handler set is fixed at process begin)
+        cands = []
+        for (ev, b), lst in ix.procs_by.items():
+            if b != bus:
+                continue
+            for p in lst:
+                if p['b']['seq'] > c['seq'] and _c18_matches(spec, ix.evtype.get(ev), ev):
+                    cands.append((p['b']['seq'], ev, p))
+        cands.sort()
+        limit_vt = min(D if D is not None else float('inf'), end_vt if (r is not None and r['out'] == 'cancel') else float('inf'))
+        must = [(s, ev, p) for (s, ev, p) in cands if p['e'] is not None and p['e']['vt'] < limit_vt - 1e-6 and p['e']['seq'] < end_seq]
+        if r is None:
+            # still pending at quiescence: legitimate only if nothing had to match and no deadline passed
+            if _actor_fate(ix, c['by']) == 'cancelled':
+                continue
+            if must:
+                ix.v('C18', 'pending-although-a-match-was-processed', None, spec=spec, bus=bus, first_match=must[0][1])
+            elif D is not None:
+                ix.v('C18', 'no-timeout-error-after-deadline', None, spec=spec, bus=bus, deadline=D)
+            continue
+        out = r['out']
+        if out == 'match':
+            ix.C['c18_matches'] += 1
+            g = r['got']
+            gp = next((p for (_s, ev, p) in cands if ev == g), None)
+            if gp is None:
+                ix.v('C18', 'returned-non-matching-or-foreign-event', None, spec=spec, bus=bus, got=g, type=ix.evtype.get(g))
+            else:
+                earlier = [(s, ev) for (s, ev, p) in must if ev != g and p['e']['seq'] < gp['b']['seq']]
+                if earlier:
+                    ix.v('C18', 'not-the-first-match', None, spec=spec, bus=bus, got=g, earlier=earlier[0][1])
+                if D is not None and gp['b']['vt'] > D + 1e-6:
+                    ix.v('C18', 'matched-event-processed-after-deadline', None, spec=spec, got=g)
+        elif out == 'timeout':
+            ix.C['c18_timeouts'] += 1
+            if D is None:
+                ix.v('C18', 'timeout-without-deadline', None, spec=spec)
+            elif must:
+                ix.v('C18', 'timeout-although-a-match-was-processed-in-time', None, spec=spec, bus=bus, first_match=must[0][1], deadline=D)
+            elif abs(r['vt'] - D) > 1e-3:
+                ix.v('C18', 'timeout-at-wrong-instant', None, spec=spec, at=r['vt'], deadline=D)
+        elif out == 'cancel':
+            ix.C['c18_cancellations'] += 1
+        else:
+            ix.v('C18', 'expect-raised', None, spec=spec, out=out)
+        # subscription removed in every outcome: registry for the key == static handlers + other expects still pending
+        pending_others = sum(1 for c2 in calls if c2 is not c and c2['bus'] == bus and c2['key'] == c['key'] and c2['seq'] < r['seq'] and (rets.get(c2['seq']) is None or rets[c2['seq']]['seq'] > r['seq']))
+        want = static[(bus, c['key'])] + pending_others
+        ix.C['c18_registry_checks'] += 1
+        if r['reg'] != want:
+            ix.v('C18', 'subscription-not-removed', None, spec=spec, out=out, registry=r['reg'], want=want)
+    # at quiescence: nothing but static handlers and still-pending expects is registered
+    for b, info in ix.final['buses'].items():
+        for key, n in info['reg'].items():
+            pend = sum(1 for c in calls if c['bus'] == b and c['key'] == key and rets.get(c['seq']) is None and _actor_fate(ix, c['by']) != 'cancelled')
+            if n != static[(b, key)] + pend:
+                ix.v('C18', 'leftover-subscription-at-quiescence', None, bus=b, key=key, registry=n, want=static[(b, key)] + pend)
+
+
+ORACLES['C18'] = c18
+
+
+# ======================================================================== C17
+def c17(ix: Index) -> None:
+    import datetime as _dt
+    import json as _json
+
+    from bubus import BaseEvent
+
+    fin = ix.final
+    faults_injected = sum(1 for r in ix.R if r['k'] == 'io_fault')
+    for bi, b in enumerate(ix.sc['buses']):
+        kind = b.get('wal')
+        if not kind:
+            continue
+        info = fin['buses'].get(bi)
+        if info is None:
+            continue
+        begins = [r for r in ix.R if r['k'] == 'wal_begin' and r['bus'] == bi]
+        ends = {}
+        for r in ix.R:
+            if r['k'] == 'wal_end' and r['bus'] == bi:
+                ends.setdefault(r['ev'], []).append(r)
+        procs = sorted((p for (ev, bus), lst in ix.procs_by.items() if bus == bi for p in lst if p['e'] is not None), key=lambda p: p['b']['seq'])
+        ix.C['c17_processed'] += len(procs)
+        # one WAL attempt per processed event, after that event's handlers on this bus have finished
+        if len(begins) != len(procs) and ix.sane:
+            ix.v('C17', 'wal-attempts-differ-from-processed-events', None, bus=bi, attempts=len(begins), processed=len(procs))
+        for wb in begins:
+            p = next((p for p in ix.procs_by.get((wb['ev'], bi), []) if p['b']['seq'] < wb['seq'] and (p['e'] is None or p['e']['seq'] > wb['seq'])), None)
+            if p is None:
+                ix.v('C17', 'wal-write-outside-processing', None, bus=bi, ev=wb['ev'])
+                continue
+            late = [x for i, x in ix.exit.items() if ix.inv[i]['pid'] == p['b']['seq'] and x['seq'] > wb['seq']]
+            not_started = [hi for hi in ix.handlers_for(wb['ev'], bi) if not any(q['pid'] == p['b']['seq'] and q['h'] == hi for q in ix.inv.values())]
+            first_time = ix.procs_by[(wb['ev'], bi)][0] is p
+            if late or (not_started and first_time and ix.sane):
+                ix.v('C17', 'wal-written-before-handlers-finished', None, bus=bi, ev=wb['ev'], late=len(late), not_started=not_started)
+        failing_path = kind in ('devfull', 'parentfile', 'isdir')
+        text = info['wal']
+        lines = [] if text is None else [ln for ln in text.split('\n')]
+        if lines and lines[-1] == '':
+            lines.pop()
+        elif text:
+            ix.v('C17', 'last-line-not-terminated', None, bus=bi)
+        n_fail_expected = len(begins) if failing_path else None
+        errors_logged = sum(1 for lvl, msg in fin['log'] if lvl == 'ERROR' and 'Failed to save event' in msg and msg.lstrip('❌ ').startswith(b['name']))
+        if failing_path:
+            ix.C['c17_failed_writes'] += len(begins)
+            if errors_logged < len(begins):
+                ix.v('C17', 'failing-write-not-reported', None, bus=bi, failures=len(begins), error_records=errors_logged, kind=kind)
+            continue
+        # healthy path (possibly with injected open/write failures): lines == attempts - injected failures, in order
+        ok_begins = []
+        for wb in begins:
+            failed = any(r['k'] == 'io_fault' and wb['seq'] < r['seq'] and r['seq'] < next((e['seq'] for e in ends.get(wb['ev'], []) if e['seq'] > wb['seq']), 10**12) for r in ix.R)
+            if failed:
+                ix.C['c17_failed_writes'] += 1
+            else:
+                ok_begins.append(wb)
+        if faults_injected and errors_logged < faults_injected and len(ix.sc['buses']) == 1:
+            ix.v('C17', 'failing-write-not-reported', None, bus=bi, failures=faults_injected, error_records=errors_logged, kind='injected')
+        if len(lines) != len(ok_begins):
+            ix.v('C17', 'line-count', None, bus=bi, lines=len(lines), expected=len(ok_begins), attempts=len(begins))
+            continue
+        # match lines to successful attempts by event id (two writes may be in flight at once on a parallel bus, so
+        # the file order is only constrained for attempts that did not overlap)
+        parsed = []
+        for ln in lines:
+            try:
+                d = _json.loads(ln)
+                back = BaseEvent.model_validate_json(ln)
+                parsed.append((d, back, ln))
+            except Exception as ex:
+                ix.v('C17', 'line-does-not-validate', None, bus=bi, err=str(ex)[:200], line=ln[:200])
+                parsed.append((None, None, ln))
+        used = set()
+        pos_of = {}
+        for k, wb in enumerate(ok_begins):
+            j = next((j for j, (d, back, _ln) in enumerate(parsed) if j not in used and back is not None and back.event_id == wb['eid']), None)
+            if j is None:
+                ix.v('C17', 'line-missing-for-processed-event', None, bus=bi, ev=wb['ev'])
+                continue
+            used.add(j)
+            pos_of[k] = j
+        for k1, w1 in enumerate(ok_begins):
+            e1 = next((e['seq'] for e in ends.get(w1['ev'], []) if e['seq'] > w1['seq']), 10**12)
+            for k2 in range(k1 + 1, len(ok_begins)):
+                if e1 < ok_begins[k2]['seq'] and k1 in pos_of and k2 in pos_of and pos_of[k1] > pos_of[k2]:
+                    ix.v('C17', 'lines-out-of-processing-order', None, bus=bi, first=w1['ev'], then=ok_begins[k2]['ev'])
+        for k, wb in enumerate(ok_begins):
+            if k not in pos_of:
+                continue
+            d, back, ln = parsed[pos_of[k]]
+            ix.C['c17_lines'] += 1
+            if not isinstance(d, dict):
+                ix.v('C17', 'line-not-an-object', None, bus=bi)
+                continue
+            if back.event_id != wb['eid'] or back.event_type != wb['etype'] or back.event_parent_id != wb['parent'] or list(back.event_path) != wb['path']:
+                ix.v('C17', 'line-metadata-differs', None, bus=bi, ev=wb['ev'], got={'id': back.event_id, 'type': back.event_type, 'parent': back.event_parent_id, 'path': list(back.event_path)},
+                     want={'id': wb['eid'], 'type': wb['etype'], 'parent': wb['parent'], 'path': wb['path']})
+            # payload: what the harness put on the event (JSON-mode), compared value by value
+            want_payload = ix.payloads.get(wb['ev'])
+            if want_payload is not None:
+                ix.C['c17_payloads'] += 1
+                for k, v in want_payload.items():
+                    if k not in d:
+                        ix.v('C17', 'payload-field-missing', None, bus=bi, ev=wb['ev'], field=k)
+                    elif not _payload_eq(d[k], v, _dt):
+                        ix.v('C17', 'payload-field-differs', None, bus=bi, ev=wb['ev'], field=k, got=repr(d[k])[:120], want=repr(v)[:120])
+                if d.get('tag') != wb['ev']:
+                    ix.v('C17', 'payload-field-differs', None, bus=bi, ev=wb['ev'], field='tag', got=d.get('tag'))
+            if 'event_results' in d:
+                ix.v('C17', 'line-contains-results', None, bus=bi, ev=wb['ev'])
+
+
+def _payload_eq(got, want, _dt) -> bool:
+    if isinstance(want, dict) and set(want) == {'$dt'}:
+        if not isinstance(got, str):
+            return False
+        try:
+            return _dt.datetime.fromisoformat(got.replace('Z', '+00:00')) == _dt.datetime.fromisoformat(want['$dt'])
+        except Exception:
+            return False
+    if isinstance(want, dict):
+        return isinstance(got, dict) and list(got.keys()) == list(want.keys()) and all(_payload_eq(got[k], want[k], _dt) for k in want)
+    if isinstance(want, list):
+        return isinstance(got, list) and len(got) == len(want) and all(_payload_eq(a, b, _dt) for a, b in zip(got, want))
+    return type(got) is type(want) and got == want
+
+
+ORACLES['C17'] = c17
